@@ -213,7 +213,13 @@ class Extractor : public ASTConsumer {
                 if (E->EvaluateAsInt(R, *Ctx, Expr::SE_NoSideEffects) && !R.HasSideEffects) {
                     llvm::APSInt V = R.Val.getInt();
                     int64_t      v = V.isSigned() ? V.getSExtValue() : (int64_t)V.getZExtValue();
-                    return J::Array{"l", v, srcText(E, 60)};
+                    // C type of the constant: bits (negative = signed); omitted for plain int
+                    QualType QT = E->getType();
+                    if (const auto *ET = QT->getAs<EnumType>()) QT = ET->getDecl()->getIntegerType();
+                    int bits = QT.isNull() ? 32 : (int)Ctx->getTypeSize(QT);
+                    bool sg  = QT.isNull() ? true : QT->isSignedIntegerOrEnumerationType();
+                    if (bits == 32 && sg) return J::Array{"l", v, srcText(E, 60)};
+                    return J::Array{"l", v, srcText(E, 60), sg ? -bits : bits};
                 }
             } else if (E->getType()->isPointerType() && E->isPRValue() &&
                        E->isNullPointerConstant(*Ctx, Expr::NPC_ValueDependentIsNotNull)) {
